@@ -25,7 +25,8 @@ oq = bind_repo()
 LEVEL = "exploration"
 
 N_STEPS = 6
-EPSREL = 1e-9                # requested SVD / quadrature tolerance of the commuting family
+EPSREL = 1e-9                # requested SVD / quadrature tolerance of the commuting family (main leg)
+EPSREL_LOOSE = 1e-6          # second leg on sub-product A: "bounded by a small multiple of the requested tolerances"
 CTOL = 100.0                 # tolerance = CTOL * epsrel * (1 + kernel scale)      (see run(): measured head-room)
 WC = 3.0
 TEMPS = [0.0, 0.06, 1.0, 8.0]         # T=0 branch | overflow guard switches at w = 36 T = 0.72 wc | thermal | hot
@@ -121,25 +122,29 @@ def shards(tier, seed=0):
     mem = memory_settings(N_STEPS)
     mem_small = [m for m in mem if m[0] in ("none", "K2<n", "K=n")][::2] + [("K2<n", 2, None, 1.5)]
     mem_two = [("K2<n", 2, None, 1.5), ("none", None, None, None)]
-    plan = []      # (kind, zeta, cut, temp, dt, model, rot, mems, uniques)
+    plan = []      # (kind, zeta, cut, temp, dt, model, rot, mems, uniques, epsrel)
     if tier == "thorough":
         for (kind, z, cut, t), dt, (mid, rot) in itertools.product(POWER + CUSTOM, DTS, MODELS):
-            plan.append((kind, z, cut, t, dt, mid, rot, mem, [False, True]))
+            plan.append((kind, z, cut, t, dt, mid, rot, mem, [False, True], EPSREL))
     else:
         # A: all cut-offs x temperatures x memory settings x unique x methods for the generic d=3 model in a rotated basis
         for (kind, z, cut, t) in POWER:
             if z == 1.0:
-                plan.append((kind, z, cut, t, 0.1, "d3", True, mem, [False, True]))
+                plan.append((kind, z, cut, t, 0.1, "d3", True, mem, [False, True], EPSREL))
         # B: all cut-offs x exponents x temperatures x models x bases at the other dt, two memory settings
         for (kind, z, cut, t), (mid, rot) in itertools.product(POWER, MODELS):
-            plan.append((kind, z, cut, t, 0.37, mid, rot, mem_two, [True]))
+            plan.append((kind, z, cut, t, 0.37, mid, rot, mem_two, [True], EPSREL))
         # C: CustomSD members x models, reduced memory list
         for (kind, z, cut, t), (mid, rot) in itertools.product(CUSTOM, MODELS[:6]):
-            plan.append((kind, z, cut, t, 0.1, mid, rot, mem_small, [False, True]))
+            plan.append((kind, z, cut, t, 0.1, mid, rot, mem_small, [False, True], EPSREL))
+    # A' (both tiers): sub-product A once more at the loose tolerance
+    for (kind, z, cut, t) in POWER:
+        if z == 1.0:
+            plan.append((kind, z, cut, t, 0.1, "d3", True, mem, [False, True], EPSREL_LOOSE))
     al = alphas(sorted({(p[0], p[1], p[2], p[3], p[4]) for p in plan}), seed)
     out = []
-    for (kind, z, cut, t, dt, mid, rot, mems, uniques) in plan:
-        out.append((C.sd_spec(kind, al[(kind, z, cut, t, dt)], z, WC, cut, t), dt, mid, rot, mems, uniques))
+    for (kind, z, cut, t, dt, mid, rot, mems, uniques, eps) in plan:
+        out.append((C.sd_spec(kind, al[(kind, z, cut, t, dt)], z, WC, cut, t), dt, mid, rot, mems, uniques, eps))
     return out
 
 
@@ -167,11 +172,12 @@ def case_cls(c, sig):
     if sig.startswith("bath-construction"):
         return f"commuting|{c['model']}{'-rot' if c['rot'] else ''}|{sig}"
     return (f"commuting|{c['model']}{'-rot' if c['rot'] else ''}|{c['sd']['kind']}-{c['sd']['cutoff']}"
-            f"|T={c['sd']['temp']}|mem={c['mem'][0]},add={c['mem'][3]}|unique={c['unique']}|{c['method']}|{sig}")
+            f"|T={c['sd']['temp']}|mem={c['mem'][0]},add={c['mem'][3]}|unique={c['unique']}"
+            f"|{c['method']}{'' if c.get('epsrel', EPSREL) == EPSREL else '@loose-epsrel'}|{sig}")
 
 
-def tolerance(scale):
-    return CTOL * EPSREL * (1.0 + scale)
+def tolerance(scale, epsrel=EPSREL):
+    return CTOL * epsrel * (1.0 + scale)
 
 
 def run_commuting(c, bath=None):
@@ -195,7 +201,8 @@ def run_commuting(c, bath=None):
         res["rect_effect"] = float(np.abs(ref - np.array(C.independent_boson(h, o, rho0, dt, nr))).max())
     omax = float(np.abs(np.linalg.eigvalsh(o)).max())
     res["scale"] = 4.0 * omax ** 2 * max(abs(e) for e in full)
-    res["tol"] = tolerance(res["scale"])
+    epsrel = c.get("epsrel", EPSREL)
+    res["tol"] = tolerance(res["scale"], epsrel)
     try:
         if bath is None:
             bath = oq.Bath(o, C.lib_correlations(sd))
@@ -203,7 +210,7 @@ def run_commuting(c, bath=None):
         res["exc"] = ("bath-construction", f"{type(ex).__name__}", str(ex)[:120])
         return res
     try:
-        prm = C.make_params(dt, EPSREL, dkmax=dkmax, tcut=None if tcut_u is None else tcut_u * dt, add=tau)
+        prm = C.make_params(dt, epsrel, dkmax=dkmax, tcut=None if tcut_u is None else tcut_u * dt, add=tau)
         sysm = oq.System(h)
         if c["method"] == "tempo":
             times, states = C.run_tempo(sysm, bath, prm, rho0, 0.0, n, c["unique"])
@@ -232,16 +239,15 @@ def canonical_key(c, r):
     k_eff = effective_k(dkmax, tcut_u)
     add_active = k_eff is not None and add_u is not None and N_STEPS > k_eff + 1
     return (C.sd_key(c["sd"]), c["dt"], c["model"], c["rot"], label, k_eff, add_u if add_active else "inactive",
-            c["unique"], c["method"])
+            c["unique"], c["method"], c.get("epsrel", EPSREL))
 
 
 def shard_worker(sh):
-    sd, dt, mid, rot, mems, uniques = sh
-    h, o, rho0 = model(mid, rot)
+    sd, dt, mid, rot, mems, uniques, eps = sh
     out = []
     for mem, unique, method in itertools.product(mems, uniques, ["tempo", "pt"]):
         c = {"fam": "commuting", "sd": sd, "dt": dt, "model": mid, "rot": rot, "mem": list(mem), "unique": unique,
-             "method": method}
+             "method": method, "epsrel": eps}
         out.append((c, run_commuting(c)))
     return out
 
@@ -254,11 +260,10 @@ MODESETS = {
     "2": [(1.0, 0.6, 0.5), (2.3, 0.5, 0.0)],
     "3": [(1.0, 0.5, 0.0), (2.3, 0.5, 0.3), (3.1, 0.4, 0.0)],
 }
-FM_DT = 0.25
-FM_N = 5
+FM_GRIDS = {"a": (0.25, 5), "b": (0.4, 4)}       # (dt, n); grid b only in the thorough tier
 
 
-def fm_system(kind, d, start):
+def fm_system(kind, d, start, FM_DT):
     """(oqupy system, props(k)) for the finite-mode family."""
     h0 = M.generic_herm(d, 1, 0.8)
     h1 = M.generic_herm(d, 2, 0.5)
@@ -294,13 +299,15 @@ def fm_coupling(d, rot):
 
 
 def fm_cases(tier):
+    """3 modes only with d=2: with d=3 the explicit joint density matrix has ~6000^2 entries (memory)."""
     out = []
-    for ms, d in itertools.product(["1", "2", "3"], [2, 3]):
-        if ms == "3" and d == 3 and tier != "thorough":
-            continue
-        for kind, rot in itertools.product(["H", "H+L", "H(t)"], [False, True]):
-            start = 1.7 if kind == "H(t)" else 0.0
-            out.append({"fam": "modes", "modes": ms, "d": d, "system": kind, "rot": rot, "start": start})
+    for grid in (["a", "b"] if tier == "thorough" else ["a"]):
+        for ms, d in itertools.product(["1", "2", "3"], [2, 3]):
+            if ms == "3" and d == 3:
+                continue
+            for kind, rot in itertools.product(["H", "H+L", "H(t)"], [False, True]):
+                start = 1.7 if kind == "H(t)" else 0.0
+                out.append({"fam": "modes", "modes": ms, "d": d, "system": kind, "rot": rot, "start": start, "grid": grid})
     return out
 
 
@@ -309,7 +316,8 @@ def run_modes(c):
     modes = MODESETS[c["modes"]]
     o = fm_coupling(d, c["rot"])
     start = c["start"]
-    sysm, props = fm_system(c["system"], d, start)
+    FM_DT, FM_N = FM_GRIDS[c.get("grid", "a")]
+    sysm, props = fm_system(c["system"], d, start, FM_DT)
     psi = np.exp(0.7j * np.arange(d)) / np.sqrt(d)
     rho0 = 0.85 * np.outer(psi, psi.conj()) + 0.15 * np.eye(d) / d
     ref, sizes = C.modes_simulation(o, modes, rho0, FM_DT, FM_N, props)
@@ -317,7 +325,7 @@ def run_modes(c):
     ref = np.array(ref)
     conv = float(np.abs(ref - np.array(ref2)).max())
     free = np.array(R.simulate(rho0, [], None, props, FM_N))
-    res = {"conv": conv, "sizes": sizes, "infl": float(np.abs(ref - free).max()), "runs": []}
+    res = {"conv": conv, "sizes": sizes, "infl": float(np.abs(ref - free).max()), "runs": [], "n": FM_N}
     for epsrel, method in itertools.product(FM_EPSREL, ["tempo", "pt"]):
         tol = FM_CTOL * epsrel * FM_N
         rr = {"epsrel": epsrel, "method": method, "tol": tol}
@@ -341,7 +349,7 @@ def run_modes(c):
 
 
 def fm_cls(c, method, sig):
-    return f"modes|{c['modes']}-mode|d={c['d']}{'-rot' if c['rot'] else ''}|{c['system']}|{method}|{sig}"
+    return f"modes|{c['modes']}-mode|d={c['d']}{'-rot' if c['rot'] else ''}|{c['system']}|grid={c.get('grid', 'a')}|{method}|{sig}"
 
 
 # ---------------------------------------------------------------------------------------------
@@ -362,6 +370,7 @@ def run(tier, seed):
     maxratio = 0.0
     maxdev = 0.0
     maxdev_by_method = {"tempo": 0.0, "pt": 0.0}
+    loose = {"runs": 0, "max_dev": 0.0, "max_dev_over_tol": 0.0, "epsrel": EPSREL_LOOSE}
     min_infl = 1e9
     min_mem_effect = 1e9
     min_rect_effect = 1e9
@@ -382,10 +391,15 @@ def run(tier, seed):
             n_states += r["nstates"]
             phys = [max(phys[0], r["phys"][0]), max(phys[1], r["phys"][1]), min(phys[2], r["phys"][2])]
             ratio = r["dev"] / r["tol"]
-            if ratio <= 1.0:
+            main_leg = c.get("epsrel", EPSREL) == EPSREL
+            if ratio <= 1.0 and main_leg:
                 maxratio = max(maxratio, ratio)
                 maxdev = max(maxdev, r["dev"])
                 maxdev_by_method[c["method"]] = max(maxdev_by_method[c["method"]], r["dev"])
+            elif ratio <= 1.0:
+                loose["runs"] += 1
+                loose["max_dev"] = max(loose["max_dev"], r["dev"])
+                loose["max_dev_over_tol"] = max(loose["max_dev_over_tol"], ratio)
             else:
                 rep.add(Violation(case_cls(c, "state-mismatch"),
                                   f"|rho - closed form| = {r['dev']:.2e} > {r['tol']:.1e}, first at step {r['first_bad']} "
@@ -398,6 +412,8 @@ def run(tier, seed):
             else:
                 trivial += 1
             k_eff = effective_k(c["mem"][1], c["mem"][2])
+            if not main_leg:
+                continue
             if k_eff is not None and k_eff < N_STEPS and r["mem_effect"] > 100 * r["tol"]:
                 n_mem_active += 1
                 min_mem_effect = min(min_mem_effect, r["mem_effect"])
@@ -422,7 +438,7 @@ def run(tier, seed):
                 rep.add(Violation(fm_cls(c, rr["method"], f"exception:{rr['exc'][0]}"), f"{rr['exc'][0]}: {rr['exc'][1]}",
                                   _cjson(c)))
                 continue
-            n_states += FM_N + 1
+            n_states += r["n"] + 1
             phys = [max(phys[0], rr["phys"][0]), max(phys[1], rr["phys"][1]), min(phys[2], rr["phys"][2])]
             if rr["dev"] > rr["tol"]:
                 rep.add(Violation(fm_cls(c, rr["method"], "state-mismatch"),
@@ -434,7 +450,7 @@ def run(tier, seed):
             if rr["tdev"] > 1e-12:
                 rep.add(Violation(fm_cls(c, rr["method"], "times"), f"time axis off by {rr['tdev']:.2e}", _cjson(c)))
             if r["infl"] > MIN_INFLUENCE:
-                keys.add(("modes", c["modes"], c["d"], c["system"], c["rot"], rr["method"], rr["epsrel"]))
+                keys.add(("modes", c["modes"], c["d"], c["system"], c["rot"], c.get("grid", "a"), rr["method"], rr["epsrel"]))
                 fm_min_infl = min(fm_min_infl, r["infl"])
             else:
                 trivial += 1
@@ -449,10 +465,12 @@ def run(tier, seed):
                 "x unique x {TEMPO, PT-TEMPO+compute_dynamics}; thorough = full product cut-off{exp,gauss,hard} x zeta{1,.5,3} x "
                 "T{0,0.06,1,8} (+3 CustomSD members) x dt{0.1,0.37} x 4 models x {plain, rotated basis} x 16 memory settings "
                 "(dkmax None/1/2/n/n+3, tcut->2; add_correlation_time None/0/1.5dt/inf wherever it can act, one member elsewhere) "
-                "x unique{F,T} x 2 methods; quick = three sub-products (A: all cut-offs x T x 16 memory x unique x method, rotated "
-                "d=3; B: all cut-offs x zeta x T x 8 models at dt=0.37, 2 memory settings; C: CustomSD x 6 models). finite-mode "
-                "family: {1,2,3 modes} x d{2,3} x {H, H+Lindblad, piecewise H(t) at start 1.7} x {diagonal, rotated coupling} x "
-                "epsrel{1e-6,1e-8} x 2 methods (3 modes, d=3 only in thorough). Every step of every run is compared. A case is "
+                "x unique{F,T} x 2 methods at epsrel 1e-9; quick = three sub-products (A: all cut-offs x T x 16 memory x unique x method, rotated "
+                "d=3; B: all cut-offs x zeta x T x 8 models at dt=0.37, 2 memory settings; C: CustomSD x 6 models); both tiers: sub-product A "
+                "again at epsrel 1e-6. The coupling strength of every spectral density is normalised (decoherence exponent 1.2 at the "
+                "last step for unit eigenvalue difference). finite-mode family: {1,2,3 modes} x d{2,3} (3 modes: d=2) x {H, "
+                "H+Lindblad, piecewise H(t) at start 1.7} x {diagonal, rotated coupling} x epsrel{1e-6,1e-8} x 2 methods on the grid "
+                "(dt 0.25, n 5), thorough also (0.4, 4). Every step of every run is compared. A case is "
                 f"non-trivial if the exact solution differs from the bath-free one by > {MIN_INFLUENCE}; distinct by the "
                 "canonical key (settings whose add_correlation_time cannot act collapse)",
         "samples": samples,
@@ -460,6 +478,7 @@ def run(tier, seed):
         "max_dev": maxdev, "max_dev_tempo": maxdev_by_method["tempo"], "max_dev_pt_tempo": maxdev_by_method["pt"],
         "tolerance": tolerance(0.0), "tolerance_rule": f"{CTOL}*epsrel*(1+4|o|^2|eta(t_n)|), epsrel={EPSREL}",
         "max_dev_over_tol": maxratio,
+        "loose_leg": loose,
         "min_environment_influence": min_infl,
         "memory_cutoff_active_cases": n_mem_active, "min_memory_cutoff_effect": min_mem_effect,
         "rectangle_active_cases": n_rect_active, "min_rectangle_effect": min_rect_effect,
